@@ -202,6 +202,42 @@ def oracle(ctx):
         ctx.fail("oracle", "jac:cache-freshness", {}, {"inside": inside, "after": after},
                  {"inside": torch.diag(2 * newa.detach() * newx.detach()), "after": before})
 
+    # partial replacement: only one of the parameters changes (seeded defect C17/2: the cache was reused while ANY tensor was
+    # still the original one)
+    for which in ("x-only", "a-only"):
+        nx = newx if which == "x-only" else x
+        na_ = newa if which == "a-only" else a
+        ctx.count(("oracle-cache-partial", which))
+        try:
+            with J.uselinopparams(nx, na_):
+                got = J.fullmatrix().detach().clone()
+                gotH = J.H.fullmatrix().detach().clone()
+        except Exception as e:
+            ctx.fail("oracle", "jac:cache-freshness:partial-replacement", {"replaced": which}, repr(e)[:200], "products with the new parameter")
+            continue
+        want = torch.diag(2 * na_.detach() * nx.detach())
+        if not torch.allclose(got, want) or not torch.allclose(gotH, want.T):
+            ctx.fail("oracle", "jac:cache-freshness:partial-replacement", {"replaced": which}, got, want)
+    # index selections in any order and with repetitions: operators come back in the REQUESTED order (seeded defect C17/3)
+    f3 = lambda p0, p1, p2: torch.stack([p0.sum() * p1[0], p1.sum() + 2 * p2[0] ** 2, p0[0] * p2[1]])
+    p3 = [torch.tensor([0.3, 0.7], dtype=DT, requires_grad=True), torch.tensor([1.5], dtype=DT, requires_grad=True),
+          torch.tensor([-0.4, 0.9, 0.2], dtype=DT, requires_grad=True)]
+    dense3 = torch.autograd.functional.jacobian(f3, tuple(t.detach() for t in p3))
+    for sel in ((2, 0), (1, 0), [2, 1, 0], (0, 2), (1, 1)):
+        ops3 = jac(f3, tuple(p3), idxs=sel)
+        ctx.count(("oracle-idxs-order", tuple(sel)))
+        if len(ops3) != len(sel):
+            ctx.fail("oracle", "jac:idxs-sequence:length", {"idxs": list(sel)}, len(ops3), len(sel))
+            continue
+        for op, i in zip(ops3, sel):
+            if list(op.shape) != list(dense3[i].shape) or not torch.allclose(op.fullmatrix(), dense3[i]):
+                ctx.fail("oracle", "jac:idxs-sequence:order", {"idxs": list(sel)}, [list(o.shape) for o in ops3],
+                         [list(dense3[j].shape) for j in sel])
+                break
+    h3 = hess(lambda p0, p1, p2: (f3(p0, p1, p2) ** 2).sum(), tuple(p3), idxs=(2, 0))
+    d3 = torch.autograd.functional.hessian(lambda p0, p1, p2: (f3(p0, p1, p2) ** 2).sum(), tuple(t.detach() for t in p3))
+    if len(h3) != 2 or not torch.allclose(h3[0].fullmatrix(), d3[2][2]) or not torch.allclose(h3[1].fullmatrix(), d3[0][0]):
+        ctx.fail("oracle", "hess:idxs-sequence:order", {"idxs": [2, 0]}, [list(o.shape) for o in h3], [[3, 3], [2, 2]])
     # the same for tensors held by the function's object (EditableModule, nn.Module): the replaced tensor is the one the
     # products use and are differentiable with respect to, and the object is untouched afterwards (fix F31: the operator
     # shared the pure function's own parameter list, so editing it turned the substitution into a no-op)
